@@ -404,6 +404,15 @@ func flags(repo string) []flag {
 		}
 		add("okStatusIsSuccess", ok, "")
 	}
+	// mux.statsHeaderNilSafe: the stats path reads the reply's header through nil-safe getters only
+	{
+		fd := mux.fn("RpcMultiplexer", "CallUnaryMethod")
+		// a field access through the possibly-nil result of GetHeader(), or through resp.Header, is not
+		b := str(fd)
+		ok := fd != nil && !strings.Contains(b, "GetHeader().Headers") && !strings.Contains(b, "resp.Header.") &&
+			strings.Contains(b, "resp.GetHeader().GetHeaders()")
+		add("statsHeaderNilSafe", ok, "")
+	}
 	// cs.recvRechecksDoneOnCtx
 	{
 		fd := cs.fn("clientStream", "RecvMsg")
